@@ -134,8 +134,24 @@ class CoroutineProcessor(Processor):
         if state != CoroutineState.TERMINATED:
             raise ValueError('Cannot start the same generator twice')
 
-        self._active_queue.append(generator)
-        self._generators[generator] = None
+        if generator in self._kill_queue:
+            # A kill is pending but was not applied yet, meaning that the
+            # generator is still queued: revoke the kill instead of
+            # queueing the generator twice.
+            self._kill_queue.discard(generator)
+            waiting_gen = self._generators[generator]
+
+            # If it was waiting, wake it up (it shall be active)
+            if waiting_gen is not None:
+                self._wait_queue[:] = [w for w in self._wait_queue
+                                       if w is not waiting_gen]
+                heapq.heapify(self._wait_queue)
+                self._active_queue.append(generator)
+                self._generators[generator] = None
+        else:
+            self._active_queue.append(generator)
+            self._generators[generator] = None
+
         promise = CoroutinePromise(generator, self)
         self._promises[generator] = promise
         return promise
